@@ -2,7 +2,8 @@
 from vcore import Case
 from dlib import Par, ALL, API_OF, keygen, crate
 
-RULE = ("generated keys, random bytes of the right length, all wrong lengths in {0, 1, n-1, n+1, n+7}, SK only, PK only, PK||SK (swapped order) "
+RULE = ("generated keys, random bytes of the right length, every wrong length 0..130 (seed-, hash- and nibble-sized inputs), the sizes of the other containers "
+        "and their parts, n-1, n+1, n+7, n/2, SK only, PK only, PK||SK (swapped order) "
         "offered as a pair, 2n; every case in the checked AND the unchecked builds (a refusal that only a debug assertion makes is no refusal); round trip through every container; sign/verify through re-serialised containers. from_bytes refusing = panic "
         "(model: Panic). Non-trivial = wrong-length or swapped case; distinct (fn,copy,input).")
 ASSUMPTIONS = ["key bytes sampled"]
@@ -26,7 +27,11 @@ def gen(tier, rng):
         for fn, n in (("sk_roundtrip", p.sk), ("pk_roundtrip", p.pk), ("kp_roundtrip", p.sk + p.pk)):
             rb = bytes(rng.randrange(256) for _ in range(2 * n))
             out.append(Case(fn, api, [rb[:n]], ["in_domain", "random-bytes"], aux=(fn[:2], p)))
-            for m in (0, 1, n - 1, n + 1, n + 7, 2 * n):
+            # every small length (a seed, a hash, a nibble of a key ...), the sizes of the OTHER containers and of their parts, and
+            # the neighbours / multiples of the right one
+            wl = set(range(0, 131)) | {n - 1, n + 1, n + 7, 2 * n, p.sk, p.pk, p.sk + p.pk, p.sig, p.sk - 32, p.pk - 32, p.sk + 32, p.pk + 32, n // 2, 64 + p.tr}
+            wl.discard(n)
+            for m in sorted(x for x in wl if 0 <= x <= 2 * n):
                 out.append(Case(fn, api, [rb[:m]], ["wrong-length"], aux=(fn[:2], p)))
     return out
 
